@@ -22,6 +22,13 @@ the id of a resource the class's CONSTRUCTOR tracks through current_context.trac
 (["req", c, tgt, act, r, rc], ["raise", c, tgt, kind, rc], ["end", c, "cut", k, tgt, act, r, mode, rc]).
 act "stream": the method returns a generator (an item stream is registered in daemon.streaming_responses and left unexhausted).
 Optional case key "linger": value of config.ITER_STREAM_LINGER for the case (default 30.0; 0 = streams dropped at disconnect).
+Oneway calls: ["owsend", c, act, r] sends a ONEWAY invoke of a plain-object method that tracks/untracks r; the thread the daemon
+starts for it is parked at its very start (Pyro5.server._OnewayCallThread.run wrapped).  Ordinary events follow (requests of
+other connections served by the same handler thread, ...), then ["owrun", c, act, r] lets the oneway thread run and waits for
+the method to have executed.  Only "owrun" is an event of the model (Req c TPlain act).
+Flash connection (thread server): ["connect", c, True, "held"] ... ["end", c, "close", "held"]: the accept thread is parked right
+after Worker.process(job) returned (Worker.process wrapped) and stays parked while c is served and ends; released after c's
+cleanup has run, before the slot accounting is read.
 Optional case key "hookfail": {"<c>": "<exception class name>"}: the daemon's clientDisconnect hook raises that exception for
 connection c (after the call has been counted).
 Optional case key "faulty": {"<r>": "<exception class name>"}: close() of resource r raises that exception (after counting).
@@ -76,6 +83,16 @@ class Gate:
         self.go = threading.Event()
         self.handed = threading.Event()
         self.installed = False
+        # second window (thread server): the accept thread is parked right after Worker.process(job) returned, i.e. after
+        # the job was handed over and before Pool.process finishes its bookkeeping, while the short connection lives and ends
+        self.hold_armed = False
+        self.hold_reached = threading.Event()
+        self.hold_go = threading.Event()
+        # oneway calls: the thread that runs a oneway call is parked at its very start
+        self.ow_armed = False
+        self.ow_reached = threading.Event()
+        self.ow_go = threading.Event()
+        self.ow_installed = False
 
     def install(self):
         if self.installed:
@@ -95,7 +112,42 @@ class Gate:
             orig_process(pool, job)
             gate.handed.set()
         svr_threads.Pool.notify_done, svr_threads.Pool.process = notify_done, process
+        orig_wprocess = svr_threads.Worker.process
+
+        def wprocess(worker, job):
+            orig_wprocess(worker, job)
+            if gate.hold_armed and job is not None:
+                gate.hold_armed = False
+                gate.hold_reached.set()
+                gate.hold_go.wait(10)
+        svr_threads.Worker.process = wprocess
         self.installed = True
+
+    def install_oneway(self):
+        if self.ow_installed:
+            return
+        import Pyro5.server
+        gate = self
+        orig_run = Pyro5.server._OnewayCallThread.run
+
+        def run(thread):
+            if gate.ow_armed:
+                gate.ow_armed = False
+                gate.ow_reached.set()
+                gate.ow_go.wait(10)
+            orig_run(thread)
+        Pyro5.server._OnewayCallThread.run = run
+        self.ow_installed = True
+
+    def hold_arm(self):
+        self.hold_reached.clear()
+        self.hold_go.clear()
+        self.hold_armed = True
+
+    def ow_arm(self):
+        self.ow_reached.clear()
+        self.ow_go.clear()
+        self.ow_armed = True
 
     def arm(self):
         self.reached.clear()
@@ -105,6 +157,10 @@ class Gate:
     def release(self):
         self.armed = False
         self.go.set()
+        self.hold_armed = False
+        self.hold_go.set()
+        self.ow_armed = False
+        self.ow_go.set()
 
 
 GATE = Gate()
@@ -148,6 +204,15 @@ class World:
                 if act == "stream":
                     return (i for i in range(3))      # left unexhausted by the client
                 return getattr(self, "iid", -1)
+
+            @pserver.oneway
+            def oop(self, act, r):
+                # runs in its own thread (Daemon starts an _OnewayCallThread), with a copy of the call context
+                if act == "track":
+                    current_context.track_resource(world.res[r])
+                elif act == "untrack":
+                    current_context.untrack_resource(world.res[r])
+                world.log.append(("exec", cid_of_ctx(), act, r))
 
             def boom(self):
                 world.log.append(("exec", cid_of_ctx(), "boom", 0))
@@ -205,6 +270,7 @@ class World:
         self.srv.register(Per, "C")
         from Pyro5 import config as _cfg
         self._saved_linger = _cfg.ITER_STREAM_LINGER
+        GATE.install_oneway()
         if stype == "thread":
             GATE.install()
         self.witness = None
@@ -442,7 +508,7 @@ def run_case(world, case):
             break
         idle_guard()
         watch["live"], watch["kind"], watch["t0"] = live(), kind, time.time()
-        if kind in ("req", "raise", "end") and ev[1] not in accepted:
+        if kind in ("req", "raise", "end", "owsend", "owrun") and ev[1] not in accepted:
             # the daemon never completed this connection's handshake: nothing can be asked of it (the model ignores
             # events on such a connection as well); an "end" just closes the client socket
             if kind == "end" and not clients[ev[1]].closed:
@@ -453,6 +519,9 @@ def run_case(world, case):
         if kind == "connect":
             c, ok = ev[1], ev[2]
             gated = len(ev) > 3 and ev[3] == "gated" and w.stype == "thread"
+            held = len(ev) > 3 and ev[3] == "held" and w.stype == "thread"
+            if held:
+                GATE.hold_arm()
             if gated:
                 GATE.handed.clear()      # before the TCP connect: the accept loop dispatches on accept, not on the CONNECT message
             cl = rd.RawClient(w.srv.port, timeout=WAIT)
@@ -519,10 +588,18 @@ def run_case(world, case):
             cl = clients[c]
             if how == "close":
                 gated = len(ev) > 3 and ev[3] == "gated" and w.stype == "thread"
+                held = len(ev) > 3 and ev[3] == "held" and w.stype == "thread"
                 if gated:
                     GATE.arm()
                 cl.close()
                 ended_client.add(c)
+                if held:
+                    # the connection's own cleanup (hook, close) runs in its worker while the accept thread is still parked
+                    # inside Pool.process; only then is the accept thread let go
+                    dlh = t_end()
+                    wait_for(lambda: hooked(c), dlh, 'hook')
+                    wait_for(lambda: server_closed(c), dlh, 'sockclosed')
+                    GATE.release()
                 if gated and not GATE.reached.wait(WAIT):
                     stalled[0] = True
                     stall_where.append("gate-reached@%d" % len(steps))
@@ -548,6 +625,23 @@ def run_case(world, case):
             settle([c], expected_slots)
             w.ctor_res = None
             snapshot("end")
+        elif kind == "owsend":
+            _, c, act, r = ev
+            GATE.ow_arm()
+            clients[c].send(rd.invoke_msg("P", "oop", (act, r), seq=nextseq(c), flags=protocol.FLAGS_ONEWAY))
+            if not GATE.ow_reached.wait(rw()):
+                stalled[0] = True
+                stall_where.append("oneway-thread@%d" % len(steps))
+            last_act[c] = time.time()
+            snapshot("owsend")
+        elif kind == "owrun":
+            _, c, act, r = ev
+            mark = len(w.log)
+            GATE.ow_armed = False
+            GATE.ow_go.set()
+            ran = wait_for(lambda: any(e[0] == "exec" and e[2] == act and e[3] == r for e in w.log[mark:]), t_end(), 'oneway-exec')
+            settle([], expected_slots)
+            snapshot("req", {"reply": "result" if ran else "none"})
         elif kind == "timeout":
             _, c, k = ev
             cl = clients[c]
